@@ -31,6 +31,23 @@ REGISTRATION = {
 
 MODULES = ["OllamaVerif.Properties.C14", "OllamaVerif.Tie.C14"]
 THEOREMS = [
+    "OllamaVerif.C14.chunks_valid",
+    "OllamaVerif.C14.reason_map",
+    "OllamaVerif.C14.out_sublist_gen",
+    "OllamaVerif.C14.prefix_valid",
+    "OllamaVerif.C14.no_split",
+    "OllamaVerif.C14.stop_found",
+    "OllamaVerif.C14.ends_at_eos_or_limit",
+    "OllamaVerif.C14.stop_honoured",
+    "OllamaVerif.C14.no_stop_in_output_partial",
+    "OllamaVerif.C14.single_stop",
+    "OllamaVerif.C14.F7_first_listed_not_earliest",
+    "OllamaVerif.C14.F20_invalid_bytes_dropped",
+    "OllamaVerif.C14.F20_reason_not_injective",
+    "OllamaVerif.Stop.run_main",
+    "OllamaVerif.Stop.valid_of_not_incomplete",
+    "OllamaVerif.Stop.valid_before_valid",
+    "OllamaVerif.Stop.truncateStop_flatten",
     "OllamaVerif.Tie.C14.ollama_skeleton_matches",
     "OllamaVerif.Tie.C14.llama_skeleton_matches",
 ]
